@@ -25,6 +25,7 @@
 
 '''IMSC style properties'''
 
+import math
 import re
 import typing
 from fractions import Fraction
@@ -49,7 +50,13 @@ def parse_length(attr_value: str) -> typing.Tuple[float, str]:
 
   if m:
 
-    return (float(m.group(1)), m.group(2))
+    value = float(m.group(1))
+
+    # a number with too many digits overflows to infinity, which is not a length
+
+    if math.isfinite(value):
+
+      return (value, m.group(2))
 
   raise ValueError("Bad length syntax")
 
